@@ -50,10 +50,10 @@ type ServiceBinding struct {
 }
 
 type OpBinding struct {
-	IDLName      string
-	PublishName  string // Go method on the publisher
+	IDLName       string
+	PublishName   string // Go method on the publisher
 	SubscribeName string // Go method on the subscriber
-	Op           *idl.Op
+	Op            *idl.Op
 }
 
 type ScopeBinding struct {
